@@ -81,6 +81,47 @@ def parseJVal : Nat → Json → JVal
         | some p => (jStr? (arg p 0)).map (fun k => (k.toList, parseJVal fuel (arg p 1)))
         | none => none))
 
+namespace HC11
+
+def qAtomStr : QAtom → String
+  | .constEq t c v => String.ofList t ++ "." ++ String.ofList c ++ "='" ++ String.ofList v ++ "'"
+  | .colEq t c t2 c2 => String.ofList t ++ "." ++ String.ofList c ++ "=" ++ String.ofList t2 ++ "." ++ String.ofList c2
+
+/-- [addr, [[col, kv, zero]…]]: columns not listed read as NULL / zero -/
+def parsePRow (j : Json) : Option PRow := do
+  let a ← jArr? j
+  let addr ← jNat? (arg a 0)
+  let cols ← (← jArr? (arg a 1)).toList.mapM (fun c => do
+    let ca ← jArr? c
+    let name ← jStr? (arg ca 0)
+    let v ← parseKeyVal (arg ca 1)
+    let z ← jBool? (arg ca 2)
+    some (name.toList, (⟨v, z⟩ : KeyComp)))
+  some ⟨addr, fun c => match cols.find? (fun kv => kv.1 == c) with
+    | some kv => kv.2
+    | none => ⟨.nil, true⟩⟩
+
+def parsePairs (j : Json) : Option (List (List Char × List Char)) := do
+  (← jArr? j).toList.mapM (fun p => do
+    let a ← jArr? p
+    let x ← jStr? (arg a 0)
+    let y ← jStr? (arg a 1)
+    some (x.toList, y.toList))
+
+def pairsJ (ps : List (List Char × List Char)) : Json :=
+  Json.arr (ps.map (fun p => strListJ [String.ofList p.1, String.ofList p.2])).toArray
+
+def optTable (j : Json) : Option (List Char) :=
+  match j with
+  | Json.null => none
+  | _ => (jStr? j).map String.toList
+
+def joinRefJ (r : JoinRef) : Json :=
+  Json.arr #[Json.bool r.ownPK, Json.str (String.ofList r.pkCol), Json.str (String.ofList r.fkCol), Json.str (String.ofList r.primaryValue)]
+
+end HC11
+open HC11
+
 def dedupNat (l : List Nat) : List Nat := l.foldl (fun acc a => if acc.contains a then acc else acc ++ [a]) []
 
 /-- ["key.join", [vals]] -> string
@@ -107,6 +148,35 @@ def handleC11 (op : String) (args : Array Json) : Option Json := do
   | "entry.walk" =>
     let hops ← (← jArr? (arg args 2)).toList.mapM jStr?
     some (Json.bool (entryWalk Gen.preloadSingleNilCheck (parseJVal 16 (arg args 1)) (hops.map String.toList)))
+  | "qc" =>
+    -- ["qc", fieldTable, joinTable|null, [refs], [parents]] -> {atoms, table, cols, fields, values}
+    let ft ← jStr? (arg args 1)
+    let jt := optTable (arg args 2)
+    let refs ← (← jArr? (arg args 3)).toList.mapM parseJoinRef
+    let ps ← (← jArr? (arg args 4)).toList.mapM parsePRow
+    let q := toQueryConditions ft.toList jt refs
+    let m := identitySlice (ps.map (·.idRow q.valFields))
+    some (Json.mkObj [
+      ("atoms", strListJ (q.atoms.map qAtomStr)),
+      ("table", Json.str (String.ofList q.inTable)),
+      ("cols", strListJ (q.inCols.map String.ofList)),
+      ("fields", strListJ (q.valFields.map String.ofList)),
+      ("values", Json.arr (m.values.map (fun t => strListJ (t.map kvTag))).toArray)])
+  | "spec.refs" =>
+    -- ["spec.refs", belongsTo, on, consts, via|null, viaP, viaC] -> [[own, pk, fk, pv]…]
+    let b ← jBool? (arg args 1)
+    let on ← parsePairs (arg args 2)
+    let cs ← parsePairs (arg args 3)
+    let via := optTable (arg args 4)
+    let vp ← parsePairs (arg args 5)
+    let vc ← parsePairs (arg args 6)
+    some (Json.arr ((RelSpec.refs ⟨b, on, cs, via, vp, vc⟩).map joinRefJ).toArray)
+  | "preload.cols" =>
+    -- ["preload.cols", [refs]] -> {direct, join, hop}: (query column, value field) pairs of preload's queries
+    let refs ← (← jArr? (arg args 1)).toList.mapM parseJoinRef
+    some (Json.mkObj [("direct", pairsJ (preloadDirectPairs refs)), ("join", pairsJ (preloadJoinPairs refs)),
+      ("hop", pairsJ (preloadHopPairs refs)),
+      ("consts", strListJ ((refs.filterMap (qcAtom [] none)).map qAtomStr))])
   | "join.on" =>
     let refs ← (← jArr? (arg args 1)).toList.mapM parseJoinRef
     let qc ← jNat? (arg args 2)
